@@ -6,7 +6,7 @@ P=$(readlink -f "$1"); shift
 D=$(mktemp -d /dev/shm/mrepo-XXXXXX)
 trap 'rm -rf "$D"' EXIT
 cp -r /repo/py7zr "$D/py7zr"
-mkdir -p "$D/tests"
+ln -s /repo/tests "$D/tests"
 ( cd "$D" && patch -p1 -s < "$P" )
 cd "$(dirname "$0")/.."
 rc=0
